@@ -92,12 +92,40 @@ def run(ctx):
                 ctx.fail('R11.3', 'pointer:shape', 'pointer arm of RdpClient::write no longer builds one ts_pointer_event under one press test', rw.where())
                 continue
             flags = fold(resolve(st, pe[0][2][0]))
+            tbl = [n for n in walk(flags) if n[0] == 'index' and strip(n[1])[0] == 'const' and isinstance(strip(n[1])[2], str) and strip(n[1])[2].startswith('[')]
+            if button is None and tbl:
+                # the button flag comes from a constant table indexed by the button (`BUTTON_FLAGS[pointer.button as usize]`): the single path
+                # stands for every button; the table entry is substituted for each discriminant in turn
+                from c13 import subst_expr
+                vals = [int(re.match(r'\s*(-?\d+)', x).group(1)) for x in strip(tbl[0][1])[2].strip('[]').split(',') if re.match(r'\s*-?\d+', x)]
+                for dsc, nm in sorted(btn.items()):
+                    if nm not in PTR:
+                        continue
+                    fv_ = ('unknown',)
+                    if 0 <= dsc < len(vals):
+                        f2 = fold(subst_expr(flags, tbl[0], ('const', vals[dsc], str(vals[dsc]))))
+                        fl_ = [fold(c) for c in walk(f2) if c[0] == 'agg' and c[2] == 'Some']
+                        fv_ = fold(fl_[0][3][0]) if fl_ else ('unknown',)
+                    want_ = PTR[nm] | (PTR_DOWN if downs[0] else 0)
+                    seen_ptr.add((nm, downs[0]))
+                    ctx.check(fv_[0] == 'const' and fv_[1] == want_, 'R11.3', 'pointer:flags:%s:%s' % (nm, downs[0]),
+                              'button %s, down=%s -> pointerFlags 0x%04x (table entry %d)' % (nm, downs[0], want_, dsc), rw.where(),
+                              'RdpClient::write encodes button %s / down=%s as pointerFlags %s (table entry %d), MS-RDPBCGR requires 0x%04x'
+                              % (nm, downs[0], hex(fv_[1]) if fv_[0] == 'const' and fv_[1] is not None else show(fv_), dsc, want_))
+                idx_ok = any(n[0] == 'discr' and strip(n[1])[0] == 'field' and strip(n[1])[2] == 'button' for n in walk(tbl[0][2])) or \
+                    any(n[0] == 'field' and n[2] == 'button' for n in walk(tbl[0][2]))
+                ctx.check(idx_ok and len(vals) == len(btn), 'R11.3', 'pointer:table_index', 'the flag table has one entry per button and is indexed by the event\'s button', rw.where(),
+                          'the pointer-flag table of RdpClient::write is not indexed by pointer.button / does not have one entry per button')
+                continue_xy = True
+            else:
+                continue_xy = False
             fl = [fold(c) for c in walk(flags) if c[0] == 'agg' and c[2] == 'Some']
             fv = fold(fl[0][3][0]) if fl else ('unknown',)
             bname = button if button in PTR else 'None'
             want = PTR[bname] | (PTR_DOWN if downs[0] else 0)
-            seen_ptr.add((bname, downs[0]))
-            ctx.check(fv[0] == 'const' and fv[1] == want, 'R11.3', 'pointer:flags:%s:%s' % (bname, downs[0]),
+            if not continue_xy:
+                seen_ptr.add((bname, downs[0]))
+            ctx.check(continue_xy or (fv[0] == 'const' and fv[1] == want), 'R11.3', 'pointer:flags:%s:%s' % (bname, downs[0]),
                       'button %s, down=%s -> pointerFlags 0x%04x' % (bname, downs[0], want), rw.where(),
                       'RdpClient::write encodes button %s / down=%s as pointerFlags %s, MS-RDPBCGR requires 0x%04x'
                       % (bname, downs[0], hex(fv[1]) if fv[0] == 'const' and fv[1] is not None else show(fv), want))
@@ -200,7 +228,14 @@ def run(ctx):
         good = any(n[0] == 'field' and n[2] == 'event_type' and unwrap_cast(n[1]) == ('param', 2) for n in walk(a0)) \
             and has_call(a1, 'model::data::to_vec') and any(n[0] == 'field' and n[2] == 'message' for n in walk(a1))
         pushes = path_calls(st, 'std::vec::Vec::<T, A>::push')
-        ctx.check(good and len(pushes) == 1 and len(ie) == 1, 'R11.3', 'wrap',
+        n_el = len(pushes)
+        if not pushes:
+            # the one-element trame written as a literal list (`vec![Box::new(event)]`)
+            ft = path_calls(st, 'model::data::Array::<T>::from_trame')
+            lst = [n for n in walk(resolve(st, ft[0][2][0]))] if ft else []
+            lst = [n for n in lst if n[0] == 'list']
+            n_el = len(lst[0][1]) if lst else 0
+        ctx.check(good and n_el == 1 and len(ie) == 1, 'R11.3', 'wrap',
                   'write_input_event wraps exactly this event (its type and its serialised message) as the single element of the input PDU',
                   wi.where(), 'write_input_event does not wrap exactly the submitted event once')
     # numEvents = arity of the same array
